@@ -658,6 +658,16 @@ def h_vac_insert(ctx, p):
     _vacant_insert(ctx, p, vtag(v[3][0]), p.arg[1])
 
 
+def h_vac_key(ctx, p):
+    """VacantEntry::key(): a reference to the key the entry was created with; nothing is touched"""
+    v = p.self0
+    ctx.classes['vacant'] += 1
+    ok = v is not None and v[0] == 'adt' and v[1] == VAC
+    t = p.E.rtag(p.st, p.val) if ok else None
+    ctx.req('OUT', ok and tag_eq(p.z, t, vtag(v[3][0])) and p.untouched() and p.len_is(0), 'key',
+            'must return a reference to the key the vacant entry was created with', p)
+
+
 def h_vac_into_key(ctx, p):
     v = p.self0
     ok = v is not None and v[0] == 'adt' and tag_eq(p.z, vtag(p.val), vtag(v[3][0]))
@@ -2856,6 +2866,7 @@ HANDLERS.update({
     (OCC, None, 'remove_entry'): ({'C11', 'C12'}, h_occ('remove_entry')),
     (VAC, None, 'insert'): ({'C11', 'C12'}, h_vac_insert),
     (VAC, None, 'into_key'): ({'C11', 'C12'}, h_vac_into_key),
+    (VAC, None, 'key'): ({'C11'}, h_vac_key),
 })
 
 
